@@ -53,9 +53,15 @@ RULE = (
     "another file, LazyTensor, TensorProto-backed, two independent TensorProtocol probes) x destination "
     "plain / symlink / read-only / absent x serial or 2-3 workers x size threshold (small external "
     "tensors are loaded first) x callback x data-file object with or without fileno x single file or "
-    "sharded next to pre-existing files (with and without a colliding shard name). Every LINE event of "
+    "sharded next to pre-existing files (with and without a colliding shard name) x data-file name w.data / "
+    "200-245 characters / 246-255 characters (no room for the staging directory name) / nested 3-9 directories "
+    "deep. Every LINE event of "
     "the recorded save is a death position; every counted call of a file-system function, tensor "
-    "method or callback is an exception position (and a mid-write death position for writes). "
+    "method or callback is an exception position (and a mid-write death position for writes). Fault pairs: "
+    "every single fault after which the save still returned normally (failing setup call worked around, "
+    "EXDEV fallback) is kept in place while the run is recorded again and the positions that follow it "
+    "(exceptions, mid-write and LINE deaths) are exercised - sampled in quick, all in thorough - plus a "
+    "primary failure followed by a failing cleanup call. "
     "Non-trivial: a destination data file pre-exists, at least one tensor is written, and at least one "
     "death and one exception position were exercised; distinct by scenario description."
 )
@@ -89,6 +95,17 @@ _DTYPES = {
 }
 
 _MON: F.LineMonitor | None = None
+
+
+def names(spec: dict) -> dict[str, str]:
+    """Relative paths of one scenario: the ``external_data`` argument (``w.data`` by default, or a
+    200-255 character name and/or a deeply nested relative path), and the regular file behind it in
+    symlink mode (same directory depth + ``store/``, same name length, so that the temporary
+    directory name derived from it is as long as the one derived from the link)."""
+    dest = spec.get("dest") or DEST
+    d, base = os.path.split(dest)
+    stem = base[:-5] if base.endswith(".data") else base
+    return {"dest": dest, "dir": d, "target": os.path.join(d, STORE, stem + ".blob"), "alias": ALIAS}
 
 
 def monitor() -> F.LineMonitor:
@@ -130,6 +147,9 @@ def plan(tier: str) -> dict:
             "tensor_checks|valid-and-old-bytes": 150 if quick else 2000,
             "tensor_checks|invalidated-and-replaced": 6 if quick else 80,
             "sharded_preexisting_checks": 300 if quick else 3000,
+            # every failing setup call (mkdtemp / first open / copymode) is looked at as the first half
+            # of a fault pair; the second stage runs whenever the save carries on after it
+            "pair_first_faults|setup call failed: save raised by itself": 10 if quick else 200,
         },
         "min_nontrivial": 3 if quick else 60,
         "params": {},
@@ -145,6 +165,28 @@ def gen_spec(rng, case: int) -> dict:
     parallel = case % 2 == 1
     n = rng.randint(2 if sharded else 1, 6)
     kinds_pool = ["mem"] * 3 + ["ext_dest"] * 4 + ["ext_other", "lazy", "probe_tofile", "probe_bytes", "proto"]
+    # every third scenario uses a very long but legal data-file name and/or a deeply nested relative
+    # path (a name of 246-255 characters leaves no room for the '.<name>.<random>' staging directory)
+    dest, family = DEST, "short"
+    if case % 3 == 2:
+        family = rng.choice(["long-fits", "long-no-room", "long-no-room", "nested", "nested-long"])
+
+        def long_name(length: int) -> str:
+            head = f"w{rng.getrandbits(40):010x}"
+            return head + "x" * (length - len(head) - 5) + ".data"
+
+        nest = "/".join(f"d{i}" + "n" * rng.randint(0, 30) for i in range(rng.randint(3, 9)))
+        if family == "long-fits":
+            dest = long_name(rng.randint(200, 245))
+        elif family == "long-no-room":
+            dest = long_name(rng.randint(246, 255))
+        elif family == "nested":
+            dest = nest + "/" + DEST
+        else:
+            dest = nest + "/" + long_name(rng.randint(200, 255))
+        if rng.random() < 0.5:
+            # saves that do not stream any input from the destination itself
+            kinds_pool = [k for k in kinds_pool if k != "ext_dest"] + ["mem"]
     tensors = []
     for i in range(n):
         kind = rng.choice(kinds_pool)
@@ -160,7 +202,8 @@ def gen_spec(rng, case: int) -> dict:
             else:
                 t["via"] = rng.choice(["direct", "direct", "alias"])
         tensors.append(t)
-    if mode != "absent" and not any(t["kind"] == "ext_dest" for t in tensors) and rng.random() < 0.85:
+    if (mode != "absent" and "ext_dest" in kinds_pool and not any(t["kind"] == "ext_dest" for t in tensors)
+            and rng.random() < 0.85):
         t = tensors[rng.randrange(len(tensors))]
         t["kind"] = "ext_dest"
         t["via"] = "direct"
@@ -180,6 +223,8 @@ def gen_spec(rng, case: int) -> dict:
         "old_seed": rng.getrandbits(32),
         "max_shard": None,
         "collide": None,
+        "dest": dest,
+        "dest_family": family,
     }
     if sharded:
         written = sum(s for s in sizes if s > threshold)
@@ -244,18 +289,24 @@ def materialize(spec: dict, root: str) -> Scenario:
     old_dest, old_other, where = _layout_old_files(spec)
     sc.old_dest, sc.old_other = old_dest, old_other
     mode = spec["mode"]
+    nm = names(spec)
+    dest, target = nm["dest"], nm["target"]
+    if nm["dir"]:
+        os.makedirs(os.path.join(root, nm["dir"]))
+    sc.dest_rel = dest
     if mode == "symlink":
-        os.mkdir(os.path.join(root, STORE))
-        with open(os.path.join(root, TARGET), "wb") as f:
+        os.mkdir(os.path.join(root, os.path.dirname(target)))
+        with open(os.path.join(root, target), "wb") as f:
             f.write(old_dest)
-        os.symlink(TARGET, os.path.join(root, DEST))
-        sc.dest_rel = TARGET
+        # the link text is relative to the directory of the link
+        os.symlink(os.path.join(STORE, os.path.basename(target)), os.path.join(root, dest))
+        sc.dest_rel = target
     elif mode in ("plain", "readonly"):
-        with open(os.path.join(root, DEST), "wb") as f:
+        with open(os.path.join(root, dest), "wb") as f:
             f.write(old_dest)
-        os.symlink(DEST, os.path.join(root, ALIAS))
+        os.symlink(dest, os.path.join(root, ALIAS))
         if mode == "readonly":
-            os.chmod(os.path.join(root, DEST), 0o444)
+            os.chmod(os.path.join(root, dest), 0o444)
     with open(os.path.join(root, OTHER), "wb") as f:
         f.write(old_other)
     if spec["sharded"]:
@@ -299,7 +350,7 @@ def materialize(spec: dict, root: str) -> Scenario:
                 location, backing, old = OTHER, OTHER, old_other
             else:
                 via = t.get("via", "direct")
-                location = {"direct": DEST, "alias": ALIAS, "target": TARGET}[via]
+                location = {"direct": dest, "alias": ALIAS, "target": target}[via]
                 backing, old = sc.dest_rel, old_dest
             tensor = ir.ExternalTensor(location, offset, length, ir_dt, shape=shape, name=name, base_dir=root)
             sc.ext.append({
@@ -340,7 +391,7 @@ def run_save(sc: Scenario, plan: F.Plan, mon_mode: str = "off", target: int = -1
             F._apply_simple(plan.hit("callback"))
 
     kwargs = dict(
-        external_data=DEST,
+        external_data=names(spec)["dest"],
         size_threshold_bytes=spec["threshold"],
         max_workers=spec["workers"],
         callback=callback,
@@ -397,16 +448,21 @@ def classify_bytes(got: bytes, old: bytes, new: bytes | None) -> str:
 def dest_state(sc_spec: dict, dest_rel: str, s0: dict, s1: dict, old: bytes, new: bytes | None) -> tuple[str, str]:
     """('old'|'new'|<defect>, detail) for the pre-existing destination."""
     if sc_spec["mode"] == "symlink":
-        if s1.get(DEST) != s0.get(DEST):
-            return "symlink-replaced", f"{DEST}: {s0.get(DEST)} -> {_short(s1.get(DEST))}"
+        link = names(sc_spec)["dest"]
+        if s1.get(link) != s0.get(link):
+            return "symlink-replaced", f"{_brief(link)}: {s0.get(link)} -> {_short(s1.get(link))}"
     entry = s1.get(dest_rel)
     if entry is None:
-        return "missing", f"{dest_rel} no longer exists"
+        return "missing", f"{_brief(dest_rel)} no longer exists"
     if entry[0] != "f":
-        return "not-regular", f"{dest_rel} became {entry[0]}"
+        return "not-regular", f"{_brief(dest_rel)} became {entry[0]}"
     cls = classify_bytes(entry[1], old, new)
-    detail = f"{dest_rel}: {len(entry[1])} bytes (old {len(old)}, new {len(new) if new is not None else '?'})"
+    detail = f"{_brief(dest_rel)}: {len(entry[1])} bytes (old {len(old)}, new {len(new) if new is not None else '?'})"
     return cls, detail
+
+
+def _brief(path: str) -> str:
+    return path if len(path) <= 60 else f"{path[:24]}...{path[-12:]} ({len(path)} chars)"
 
 
 def _short(entry) -> str:
@@ -465,7 +521,8 @@ class Judge:
             f"{t['name']}[{_nbytes(t)}B{'/' + t['via'] if t.get('via') else ''}]" for t in s["tensors"]
         )
         return (
-            f"mode={s['mode']} sharded={s['sharded']} max_shard={s['max_shard']} collide={s.get('collide')}"
+            f"mode={s['mode']} dest={s.get('dest_family', 'short')}[{_brief(names(s)['dest'])}] sharded={s['sharded']} "
+            f"max_shard={s['max_shard']} collide={_brief(s['collide']) if s.get('collide') else None}"
             f"({s.get('collide_kind')}) workers={s['workers']} threshold={s['threshold']} callback={s['callback']} "
             f"opaque_file={s['opaque']} tensors=[{tens}]"
         )
@@ -566,9 +623,10 @@ class Judge:
     def allowed_new(self) -> set[str]:
         allowed = {MODEL} | set(self.ref_outputs)
         if self.spec["mode"] == "absent":
-            allowed.add(DEST)
+            allowed.add(names(self.spec)["dest"])
         if self.spec.get("collide") and self.spec.get("collide_kind") == "dangling":
-            allowed.add("nowhere.bin")   # the shard written through the dangling link
+            # the shard written through the dangling link
+            allowed.add(os.path.join(os.path.dirname(self.spec["collide"]), "nowhere.bin"))
         return allowed
 
     # -- success --------------------------------------------------------------------------------
@@ -631,12 +689,12 @@ class Judge:
                     f"{where}|{fault_tag}|dest-{outcome}",
                     f"save raised {type(exc).__name__}({exc}); the destination is neither old nor new: {detail}. "
                     f"Scenario: {self.describe()}", replay)
-        elif strict and DEST in s1:
+        elif strict and names(spec)["dest"] in s1:
             ctx.count("report_only_absent_dest_created_by_failed_save")
         self.check_preexisting(s1, where=where, fault_tag=fault_tag, replay=replay, skip={self.dest_rel})
         if strict:
             ctx.count("exc_judged|strict")
-            allowed = {MODEL} | ({DEST} if spec["mode"] == "absent" else set())
+            allowed = {MODEL} | ({names(spec)["dest"]} if spec["mode"] == "absent" else set())
             left = new_entries(self.s0, s1, allowed)
             if left:
                 classes = sorted({leftover_class(rel, s1[rel], self.dest_rel) for rel in left})
@@ -790,10 +848,11 @@ def run_child(spec: dict, rundir: str, death: list) -> int:
         try:
             gc.disable()  # a collection in the child would touch (copy) every inherited page
             sc = materialize(spec, rundir)
+            first = list(death[2]) if len(death) > 2 else []   # faults the save absorbs before dying
             if death[0] == "line":
-                exc, _ = run_save(sc, F.Plan(), "kill", int(death[1]))
+                exc, _ = run_save(sc, F.Plan(first), "kill", int(death[1]))
             else:
-                exc, _ = run_save(sc, F.Plan([death[1]]), "off")
+                exc, _ = run_save(sc, F.Plan(first + [death[1]]), "off")
             code = 0 if exc is None else 3
         except BaseException:  # noqa: BLE001
             try:
@@ -849,12 +908,12 @@ def reference_and_recording(judge: Judge, spec: dict) -> tuple[Counter, int, lis
     s1 = snapshot(refdir)
     del sc
     shutil.rmtree(refdir, ignore_errors=True)
-    judge.dest_rel = TARGET if spec["mode"] == "symlink" else DEST
+    judge.dest_rel = names(spec)["target"] if spec["mode"] == "symlink" else names(spec)["dest"]
     judge.old = _layout_old_files(spec)[0]
     if spec["sharded"]:
         single_shard_hits_existing = exc is not None and isinstance(exc, FileExistsError)
         if exc is not None and not single_shard_hits_existing:
-            ctx.note(f"reference sharded save raised {type(exc).__name__}: {exc}")
+            ctx.count(f"reference_run_raised|sharded|{_exc_class(exc)}")
         judge.ref_outputs = {k for k in s1 if k not in s0 and k != MODEL and not os.path.basename(k).startswith(".")}
         outputs = sorted(judge.ref_outputs)
         if spec.get("collide_kind", "none") != "none" and outputs:
@@ -863,8 +922,7 @@ def reference_and_recording(judge: Judge, spec: dict) -> tuple[Counter, int, lis
             spec["collide"] = None
     else:
         if exc is not None:
-            ctx.count("reference_run_raised")
-            ctx.note(f"reference single-file save raised {type(exc).__name__}: {exc}")
+            ctx.count(f"reference_run_raised|{_exc_class(exc)}")
             judge.new = None
         else:
             entry = s1.get(judge.dest_rel)
@@ -891,21 +949,26 @@ def reference_and_recording(judge: Judge, spec: dict) -> tuple[Counter, int, lis
         ctx.count("recording_run|returned")
         judge.judge_success(sc, s1, before, where="success", fault_tag="no-fault", replay=replay)
     else:
-        ctx.count(f"recording_run|raised {type(exc).__name__}")
-        if not (spec["sharded"] and isinstance(exc, FileExistsError)):
-            ctx.note(f"recording run raised {type(exc).__name__}: {exc} [{judge.describe()}]")
+        ctx.count(f"recording_run|raised {_exc_class(exc)}")
         judge.judge_exception(sc, s1, before, exc, rec_plan, fault_tag="no-fault", replay=replay)
     del sc
     shutil.rmtree(recdir, ignore_errors=True)
     return rec_plan.counts, events, trace
 
 
+def _exc_class(exc: BaseException) -> str:
+    import errno as _errno
+
+    code = getattr(exc, "errno", None)
+    return type(exc).__name__ + (f"({_errno.errorcode.get(code, code)})" if isinstance(code, int) else "")
+
+
 def materialize_concat(spec: dict) -> bytes:
     return b"".join(_payload(t) for t in spec["tensors"] if _nbytes(t) > spec["threshold"])
 
 
-def run_exception_case(judge: Judge, spec: dict, faults: list) -> tuple[str, bool]:
-    """One in-process save with the given fault plan; judged.  Returns (outcome, fired?)."""
+def run_exception_case(judge: Judge, spec: dict, faults: list) -> tuple[str, bool, bool]:
+    """One in-process save with the given fault plan; judged.  Returns (outcome, fired?, returned?)."""
     ctx = judge.ctx
     rundir = judge.fresh_dir()
     sc = materialize(spec, rundir)
@@ -932,9 +995,10 @@ def run_exception_case(judge: Judge, spec: dict, faults: list) -> tuple[str, boo
         ctx.count(f"exc_raised|{type(exc).__name__}")
         outcome = judge.judge_exception(sc, s1, before, exc, plan, fault_tag=tag, replay=replay)
     ctx.count(f"exc_outcome|save {'returned' if exc is None else 'raised'}|destination {outcome}")
+    returned = exc is None
     del exc, sc
     shutil.rmtree(rundir, ignore_errors=True)
-    return outcome, fired
+    return outcome, fired, returned
 
 
 def run_death_case(judge: Judge, spec: dict, death: list) -> tuple[str, int]:
@@ -947,6 +1011,8 @@ def run_death_case(judge: Judge, spec: dict, death: list) -> tuple[str, int]:
     else:
         site, k, action = death[1]
         tag = "mid-write:" + _fault_tag(site, k, "die", False)
+    if len(death) > 2 and death[2]:
+        tag = "+".join(_fault_tag(s_, k_, a_[0], not spec["sharded"]) for s_, k_, a_ in death[2]) + "+" + tag
     replay = {"kind": "death", "spec": spec, "death": death}
     outcome = judge.judge_death(s1, point_tag=tag, replay=replay)
     if code == 0:
@@ -981,6 +1047,7 @@ def enumerate_scenario(ctx, spec: dict, base: str, *, all_variants: bool, pairs:
     abandoned = False
     # ---- exceptions at every counted call ------------------------------------------------------
     exc_outcomes: dict[str, Counter] = {}
+    absorbed: list[list] = []     # single faults that fired and the save carried on: first halves of pairs
     plans = exception_positions(counts, rng, all_variants)
     if pairs:
         plans += pair_positions(counts, rng)
@@ -988,11 +1055,21 @@ def enumerate_scenario(ctx, spec: dict, base: str, *, all_variants: bool, pairs:
         if abandoned or ctx.out_of_time():
             abandoned = True
             break
-        outcome, fired = run_exception_case(judge, spec, faults)
+        outcome, fired, returned = run_exception_case(judge, spec, faults)
+        if len(faults) == 1 and faults[0][0] in SETUP_SITES:
+            ctx.count("pair_first_faults|setup call failed: " + ("save carried on" if fired and returned
+                                                                   else "save raised by itself" if fired else "not reached"))
+        if len(faults) == 1 and fired and returned:
+            absorbed.append(faults[0])
         ctx.count("exc_points|total")
         key = "+".join(f[0] for f in faults)
         ctx.count(f"exc_points|{key}")
         exc_outcomes.setdefault(key, Counter())[outcome] += 1
+
+    # ---- fault pairs: a fault the save absorbs, then every later position ------------------------
+    pair_summary = {}
+    if pairs and not abandoned:
+        abandoned = enumerate_after_absorbed(judge, spec, absorbed, rng, all_variants, pair_summary)
 
     # ---- process death in the middle of every counted write -----------------------------------
     mids = death_midwrite_positions(counts)
@@ -1034,12 +1111,103 @@ def enumerate_scenario(ctx, spec: dict, base: str, *, all_variants: bool, pairs:
         ),
         "death_midwrite": mid_outcomes,
         "exception_outcomes_by_site": {k: dict(v) for k, v in exc_outcomes.items()},
+        "fault_pairs_after_absorbed_first_fault": pair_summary,
         "violations": sorted({sig for sig, _, _ in judge.found}),
     }
     if abandoned:
         summary["abandoned_by_time_budget"] = True
     return {"judge": judge, "summary": summary, "positions": events + len(mids) + len(plans),
             "complete": not abandoned}
+
+
+SETUP_SITES = ("mkdtemp", "open", "copymode")
+# quick tier: per absorbed first fault, how many later positions are sampled (thorough: all)
+PAIR_SAMPLE = {"firsts": 4, "exception": 14, "midwrite": 3, "line": 30}
+
+
+def enumerate_after_absorbed(judge: Judge, spec: dict, absorbed: list, rng, everything: bool, summary: dict) -> bool:
+    """Second-order positions.  For every single fault that fired while the save nevertheless returned
+    normally (a failing setup call the code works around, an EXDEV the copy falls back from, ...) the
+    recording run is repeated *under that fault* and the positions that follow it - exception kinds,
+    mid-write deaths, LINE-event deaths - are exercised with the first fault in place.  Judged exactly
+    like single faults.  Returns True when the time budget ran out."""
+    ctx = judge.ctx
+    firsts = []
+    seen = set()
+    for f in absorbed:
+        key = (f[0], f[1], f[2][0])
+        if key not in seen:          # errno variants of the same call are one first fault
+            seen.add(key)
+            firsts.append(f)
+    ctx.count("pair_first_faults|absorbed (distinct)", len(firsts))
+    if not everything and len(firsts) > PAIR_SAMPLE["firsts"]:
+        setup = [f for f in firsts if f[0] in SETUP_SITES]
+        rest = [f for f in firsts if f[0] not in SETUP_SITES]
+        rng.shuffle(rest)
+        firsts = (setup + rest)[: PAIR_SAMPLE["firsts"]]
+    mon = monitor()
+    for first in firsts:
+        if ctx.out_of_time():
+            return True
+        # ---- recording run under the first fault ----------------------------------------------
+        rundir = judge.fresh_dir()
+        sc = materialize(spec, rundir)
+        plan = F.Plan([first])
+        marks: list[int] = []
+        plan.on_fire = lambda: marks.append(len(mon.trace))
+        exc, events = run_save(sc, plan, "record")
+        del sc
+        shutil.rmtree(rundir, ignore_errors=True)
+        name = _fault_tag(first[0], first[1], first[2][0], not spec["sharded"])
+        if exc is not None or not plan.fired:
+            ctx.count("pair_first_faults|not absorbed when repeated")
+            continue
+        ctx.count("pair_first_faults|second stage enumerated")
+        ctx.count(f"pair_first_faults|second stage enumerated|{first[0]}")
+        at_fire = plan.counts_at_fire[0]
+        fire_line = marks[0] if marks else 0
+        later: list[list] = []
+        for faults in exception_positions(plan.counts, rng, everything):
+            site, k, _a = faults[0]
+            if site in F.CLEANUP_SITES or k <= at_fire.get(site, 0):
+                continue              # before (or at) the first fault: not a pair
+            later.append(faults[0])
+        mids = [m for m in death_midwrite_positions(plan.counts) if m[1] > at_fire.get(m[0], 0)]
+        lines = list(range(fire_line, events))
+        space = {"exception": len(later), "midwrite": len(mids), "line": len(lines)}
+        for kind, n in space.items():
+            ctx.count(f"pair_space|{kind}", n)
+        if not everything:
+            for seq, kind in ((later, "exception"), (mids, "midwrite"), (lines, "line")):
+                rng.shuffle(seq)
+                del seq[PAIR_SAMPLE[kind]:]
+        done = Counter()
+        outcomes = Counter()
+        for second in later:
+            if ctx.out_of_time():
+                return True
+            outcome, _fired, returned = run_exception_case(judge, spec, [first, second])
+            ctx.count("pair_points|exception")
+            done["exception"] += 1
+            outcomes[f"exception:{'returned' if returned else 'raised'}:{outcome}"] += 1
+        for m in mids:
+            if ctx.out_of_time():
+                return True
+            outcome, _code = run_death_case(judge, spec, ["mid", m, [first]])
+            ctx.count("pair_points|death-midwrite")
+            done["midwrite"] += 1
+            outcomes[f"death:{outcome}"] += 1
+        for n in lines:
+            if ctx.out_of_time():
+                return True
+            outcome, _code = run_death_case(judge, spec, ["line", n, [first]])
+            ctx.count("pair_points|death-line")
+            done["line"] += 1
+            outcomes[f"death:{outcome}"] += 1
+        summary[name + (":" + first[2][1][1] if first[2][1] and len(first[2][1]) > 1 else "")] = {
+            "later_positions": space, "exercised": dict(done), "outcomes": dict(outcomes),
+        }
+    return False
 
 
 def _runs(outcomes: list[str]) -> str:
@@ -1133,6 +1301,16 @@ def shrink_witness(replay: dict, signature: str, base: str, max_tries: int = 60)
                 if t.get("via") == "target":
                     t["via"] = "direct"
             yield c
+        if len(cur.get("faults", [])) > 1:
+            for j in range(len(cur["faults"])):
+                c = copy.deepcopy(cur)
+                del c["faults"][j]
+                yield c
+        if spec.get("dest") and spec["dest"] != DEST:
+            c = copy.deepcopy(cur)
+            c["spec"]["dest"] = DEST
+            c["spec"]["dest_family"] = "short"
+            yield c
         for j, f in enumerate(cur.get("faults", [])):
             if f[1] > 1:
                 c = copy.deepcopy(cur)
@@ -1198,6 +1376,7 @@ def run(ctx) -> None:
                 ctx.count("scenarios_enumerated")
                 ctx.count("fault_positions_exercised", result["positions"])
                 ctx.count(f"scenarios|mode={spec['mode']}")
+                ctx.count(f"scenarios|dest-name={spec.get('dest_family', 'short')}")
                 ctx.count("scenarios|writer=" + ("parallel" if (spec["workers"] or 1) > 1 else "serial"))
                 ctx.count("scenarios|" + ("sharded" if spec["sharded"] else "single-file"))
                 if spec["sharded"]:
@@ -1232,7 +1411,8 @@ def run(ctx) -> None:
 def _describe_replay(replay: dict) -> str:
     spec = replay["spec"]
     tens = ", ".join(f"{t['kind']}[{_nbytes(t)}B]" for t in spec["tensors"])
-    return (f"mode={spec['mode']} sharded={spec['sharded']} workers={spec['workers']} threshold={spec['threshold']} "
+    return (f"mode={spec['mode']} dest={spec.get('dest_family', 'short')}[{len(names(spec)['dest'])} chars] "
+            f"sharded={spec['sharded']} workers={spec['workers']} threshold={spec['threshold']} "
             f"callback={spec['callback']} opaque_file={spec['opaque']} tensors=[{tens}] "
             f"faults={replay.get('faults')} death={replay.get('death')}")
 
